@@ -102,3 +102,13 @@ Definition wf_dstore (s : dstore) : bool :=
   && str_nodup (file_names s)
   && fits (length (st_anns s)) LIMIT32 && fits (length (st_ress s)) LIMIT32
   && fits (length (st_sets s)) LIMIT16.
+
+(* some public identifier uses the reserved syntax *)
+Definition has_reserved_id (s : dstore) : bool :=
+  existsb reserved (map (fun p => jr_id (snd p)) (live (st_ress s)))
+  || existsb reserved (map (fun p => js_id (snd p)) (live (st_sets s)))
+  || existsb reserved (flat_map (fun p => opt_list (ja_id (snd p))) (live (st_anns s)))
+  || existsb (fun p => existsb reserved (flat_map opt_list (js_keys (snd p)))
+                       || existsb reserved (flat_map (fun o => match o with Some it => opt_list (jx_id it) | None => [] end)
+                                                     (js_data (snd p))))
+             (live (st_sets s)).
